@@ -11,10 +11,10 @@ ap = argparse.ArgumentParser()
 ap.add_argument("id"); ap.add_argument("property"); ap.add_argument("title")
 ap.add_argument("--region", default=""); ap.add_argument("--mode", default="file")
 ap.add_argument("--no-prelude", action="store_true"); ap.add_argument("--status", default="open")
-ap.add_argument("--commit", default=None)
+ap.add_argument("--commit", default=None); ap.add_argument("--prelude3", action="store_true")
 a = ap.parse_args()
 script = sys.stdin.read()
-full = script if a.no_prelude else gen_prog.PRELUDE + script
+full = script if a.no_prelude else (gen_prog.PRELUDE3 if a.prelude3 else gen_prog.PRELUDE) + script
 core.ensure_built()
 rb, rr = diffrun.run_both(full, mode=a.mode)
 ob, orf = diffrun.observe(rb), diffrun.observe(rr)
